@@ -20,6 +20,7 @@
 //!   ["addrs", slot]                       local_addr / peer_addr
 //!   ["egress"]                            egress_all; new packets are appended to the wire
 //!   ["deliver", k] / ["drop", k] / ["dup", k]   act on the k-th packet of the wire
+//!   ["flush"]                             deliver every packet now on the wire, in order
 //!   ["netstat", host] / ["counts", host] / ["rows", host]
 //!   ["udp_bind", slot, host, ia, port] / ["udp_send", slot, len, ia, port]
 //! One observation per command, same index.
@@ -358,6 +359,17 @@ fn run_case(case: &Value) -> Value {
                 } else {
                     json!({"r": "none"})
                 }
+            }
+            "flush" => {
+                // deliver, in order, every packet that is on the wire now
+                let n = wire.len();
+                let mut enc = Vec::new();
+                for _ in 0..n {
+                    let p = wire.remove(0);
+                    enc.push(enc_packet(&p));
+                    guard.deliver(p);
+                }
+                json!({"r": "ok", "pk": enc})
             }
             "netstat" => {
                 let h = c[1].as_u64().unwrap() as usize;
